@@ -226,6 +226,32 @@ theorem offDiag3 (r12 r13 r21 r23 r31 r32 : ℝ) :
       = decide (r12 = 0 ∧ r13 = 0 ∧ r21 = 0 ∧ r23 = 0 ∧ r31 = 0 ∧ r32 = 0) := by
   simp [offDiagAllZero, List.range, List.range.loop, Mat.get, List.all_cons, Bool.and_assoc]
 
+/-- **C02 (the shortcut, as written in the source).** `Gen.mcNoCorrelation` is the translation of
+    the test in `if <test>: return sample_vector` of `correlate_samples` (regenerated on every
+    run by `vf/tr/mccorr.py`).  On a unit-diagonal matrix of three (two) sources it holds exactly when
+    EVERY off-diagonal entry is zero — so the Cholesky step is skipped only when no correlation
+    at all is present, never because non-zero correlations happen to cancel. -/
+theorem C02_shortcut_generated (r12 r13 r21 r23 r31 r32 : ℝ) :
+    Gen.mcNoCorrelation [[1, r12, r13], [r21, 1, r23], [r31, r32, 1]]
+      = decide (r12 = 0 ∧ r13 = 0 ∧ r21 = 0 ∧ r23 = 0 ∧ r31 = 0 ∧ r32 = 0) ∧
+    Gen.mcNoCorrelation [[1, r12], [r21, 1]] = decide (r12 = 0 ∧ r21 = 0) := by
+  set_option linter.unusedSimpArgs false in
+  constructor
+  · by_cases h12 : r12 = 0 <;> by_cases h13 : r13 = 0 <;> by_cases h21 : r21 = 0 <;>
+    by_cases h23 : r23 = 0 <;> by_cases h31 : r31 = 0 <;> by_cases h32 : r32 = 0 <;>
+    simp [Gen.mcNoCorrelation, countNonzero, msub, diagMat, anyNonzero, sumAll, trace, feq, matEq,
+      triu1, tril1, identity, Mat.get, List.range, List.range.loop, zero, one, Num.sum,
+      h12, h13, h21, h23, h31, h32]
+  · by_cases h12 : r12 = 0 <;> by_cases h21 : r21 = 0 <;>
+    simp [Gen.mcNoCorrelation, countNonzero, msub, diagMat, anyNonzero, sumAll, trace, feq, matEq,
+      triu1, tril1, identity, Mat.get, List.range, List.range.loop, zero, one, Num.sum, h12, h21]
+
+/-- the generated shortcut agrees with the model's reading of it (`offDiagAllZero`) -/
+theorem shortcut3 (r12 r13 r21 r23 r31 r32 : ℝ) :
+    Gen.mcNoCorrelation [[1, r12, r13], [r21, 1, r23], [r31, r32, 1]]
+      = decide (r12 = 0 ∧ r13 = 0 ∧ r21 = 0 ∧ r23 = 0 ∧ r31 = 0 ∧ r32 = 0) :=
+  (C02_shortcut_generated r12 r13 r21 r23 r31 r32).1
+
 /-- **C02 (factor, three sources).** With `R` the matrix of `get_correlation` values (any
     diagonal — it is replaced by ones):
     * no correlation set ⇒ identity, no warning;
@@ -247,17 +273,17 @@ theorem C02_factor_cases (d1 r12 r13 r21 d2 r23 r31 r32 d3 : ℝ) :
   have hlen : (unitDiag R).length = 3 := by simp [R, unitDiag3]
   refine ⟨?_, ?_, ?_⟩
   · intro h0
-    simp only [factor, R, unitDiag3, offDiag3, h0, and_self, decide_true, if_true, List.length_cons,
+    simp only [factor, R, unitDiag3, shortcut3, h0, and_self, decide_true, if_true, List.length_cons,
       List.length_nil]
   · intro h0 hpd
     obtain ⟨l11, l21, l22, l31, l32, l33, hc, _, _, _, e1, e2, e3, e4, e5, e6⟩ :=
       C02_chol3_correct 1 r21 1 r31 r32 1 hpd
     refine ⟨l11, l21, l22, l31, l32, l33, ?_, e1, e2, e3, e4, e5, e6⟩
-    simp only [factor, R, unitDiag3, offDiag3, h0, decide_false, Bool.false_eq_true, if_false,
+    simp only [factor, R, unitDiag3, shortcut3, h0, decide_false, Bool.false_eq_true, if_false,
       (C02_chol_matrix 1 r12 r13 r21 1 r23 r31 r32 1).1, hc, Option.map_some]
   · intro h0 hnpd
     have hc := C02_chol3_none 1 r21 1 r31 r32 1 hnpd
-    simp only [factor, R, unitDiag3, offDiag3, h0, decide_false, Bool.false_eq_true, if_false,
+    simp only [factor, R, unitDiag3, shortcut3, h0, decide_false, Bool.false_eq_true, if_false,
       (C02_chol_matrix 1 r12 r13 r21 1 r23 r31 r32 1).1, hc, Option.map_none, List.length_cons,
       List.length_nil]
 
